@@ -65,6 +65,7 @@ type mockConn struct {
 	attempt  []byte // bytes offered to Write during the current op (accepted or not)
 	react    func(c *mockConn)
 	dlRemain int64 // ms left of the timeout when the last read deadline was armed (-1: none)
+	wdl      time.Time // write deadline (zero: none), honoured like a socket does
 }
 
 func (c *mockConn) Read(p []byte) (int, error) {
@@ -94,6 +95,11 @@ func (c *mockConn) Write(b []byte) (int, error) {
 	if c.closed {
 		c.w.ev(fmt.Sprintf("wac%d", c.id))
 		return 0, net.ErrClosed
+	}
+	if !c.wdl.IsZero() && time.Now().After(c.wdl) {
+		// a write deadline that was armed earlier and has passed: the socket refuses the write
+		c.w.ev(fmt.Sprintf("zto%d", c.id))
+		return 0, timeoutErr{}
 	}
 	f := c.fault
 	if strings.HasPrefix(f, "D") {
@@ -137,8 +143,12 @@ func (c *mockConn) Close() error {
 }
 func (c *mockConn) LocalAddr() net.Addr                { return &net.TCPAddr{} }
 func (c *mockConn) RemoteAddr() net.Addr               { return &net.TCPAddr{} }
-func (c *mockConn) SetDeadline(t time.Time) error      { return nil }
-func (c *mockConn) SetWriteDeadline(t time.Time) error { return nil }
+func (c *mockConn) SetDeadline(t time.Time) error {
+	// both halves, as net.Conn says
+	c.wdl = t
+	return c.SetReadDeadline(t)
+}
+func (c *mockConn) SetWriteDeadline(t time.Time) error { c.wdl = t; return nil }
 func (c *mockConn) SetReadDeadline(t time.Time) error {
 	c.w.ev(fmt.Sprintf("dl%d", c.id))
 	c.deadline = !t.IsZero()
@@ -240,7 +250,10 @@ func (t *tcpRun) exec(op *ttree) (out string) {
 		err := t.c.Reconnect()
 		t.w.dial = nil
 		return outTok(resOf(err), t.w.take(), x)
-	case "TP":
+	case "TP", "TPS":
+		if name == "TPS" {
+			time.Sleep(70 * time.Millisecond) // longer than the configured timeout (50 ms): stale deadlines have passed
+		}
 		if t.c.TransportPhase() {
 			return outTok("t", t.w.take(), x)
 		}
